@@ -11,9 +11,24 @@ import (
 	"github.com/tetratelabs/wazero/internal/wasm"
 )
 
+// checkRemaining returns the error io.ReadFull would return for a buffer of n bytes when fewer than n bytes
+// remain, so that callers can fail before allocating a buffer whose size comes from the input.
+func checkRemaining(r *bytes.Reader, n uint64) error {
+	if remaining := uint64(r.Len()); n > remaining {
+		if remaining == 0 {
+			return io.EOF
+		}
+		return io.ErrUnexpectedEOF
+	}
+	return nil
+}
+
 func decodeValueTypes(r *bytes.Reader, num uint32) ([]wasm.ValueType, error) {
 	if num == 0 {
 		return nil, nil
+	}
+	if err := checkRemaining(r, uint64(num)); err != nil {
+		return nil, err
 	}
 
 	ret := make([]wasm.ValueType, num)
@@ -45,6 +60,9 @@ func decodeUTF8(r *bytes.Reader, contextFormat string, contextArgs ...interface{
 		return "", uint32(sizeOfSize), nil
 	}
 
+	if err = checkRemaining(r, uint64(size)); err != nil {
+		return "", 0, fmt.Errorf("failed to read %s: %w", fmt.Sprintf(contextFormat, contextArgs...), err)
+	}
 	buf := make([]byte, size)
 	if _, err = io.ReadFull(r, buf); err != nil {
 		return "", 0, fmt.Errorf("failed to read %s: %w", fmt.Sprintf(contextFormat, contextArgs...), err)
